@@ -330,11 +330,91 @@ pub fn run(tier: Tier, seed: u64) -> i32 {
         one_program(&lab, 20_000 + ci, prog, inputs, "last-row-custom", tier.pick(10, 16));
     });
 
+    // D. several rows violated at once with equal residues on rows that are
+    // n/2 (or n/4) apart: the remainder's high coefficients cancel, which a
+    // detection rule looking at too few coefficients would miss. Roomy SRS so
+    // that the commit key cannot mask a missed detection.
+    let n_sym = tier.pick(48u64, 480u64);
+    par_cases(n_sym, threads(), |ci| {
+        let mut rng = case_rng(seed, "C05.D", ci);
+        let k = 3 + (ci % 4) as u32; // domain 8..64
+        let n = 1usize << k;
+        let rows = if ci % 2 == 0 { n } else { n - 1 - (rng.next_u32() as usize % (n / 4)) };
+        // one fresh witness per row, each pinned by its own assert_equal_constant row
+        let mut b = Builder::new();
+        let mut row_witness: Vec<(usize, usize)> = Vec::new(); // (row, witness index)
+        while b.rows() < rows {
+            let v = pool_scalar(&mut rng);
+            let r = b.witness(v);
+            let w = b.regs.s[r].index();
+            b.push(Op::AssertEqConst(r, v, Pi::None)).unwrap();
+            row_witness.push((b.rows() - 1, w));
+        }
+        let (prog, inputs) = b.finish();
+        // choose the symmetric row set
+        let parts = if ci % 3 == 0 && n >= 16 { 4 } else { 2 };
+        let step = n / parts;
+        let candidates: Vec<usize> = (4..step.max(5)).filter(|i| (0..parts).all(|j| i + j * step < rows && i + j * step >= 4)).collect();
+        if candidates.is_empty() {
+            return;
+        }
+        let i0 = candidates[rng.next_u32() as usize % candidates.len()];
+        let mut delta = pool_scalar(&mut rng) + BlsScalar::one();
+        if delta == BlsScalar::zero() {
+            delta = BlsScalar::from(5u64);
+        }
+        let mut tamper = Vec::new();
+        for j in 0..parts {
+            let row = i0 + j * step;
+            if let Some((_, w)) = row_witness.iter().find(|(r, _)| *r == row) {
+                tamper.push((row, *w));
+            }
+        }
+        if tamper.len() != parts {
+            return;
+        }
+        let honest = common::build_instance(&prog, &inputs, &[]).ok().map(|(s, _)| s);
+        let Some(honest) = honest else { return };
+        let tam: Vec<Tamper> = tamper.iter().map(|(_, w)| Tamper::SetWitness(*w, honest.witnesses[*w] + delta)).collect();
+        let deg = common::min_degree(rows) * [1usize, 2, 8][(ci % 3) as usize];
+        let pp = crate::util::pp(deg);
+        let compiled = match common::compile(&pp, format!("c05-sym-{ci}").as_bytes(), &prog) {
+            Ok(c) => c,
+            Err(f) => {
+                ev.violation("C05:compile-failed:symmetric", json!({"error": f.text()}));
+                return;
+            }
+        };
+        let mut prng = case_rng(seed, "C05.D.prove", ci);
+        let proved = common::prove(&compiled.prover, &prog, &inputs, &tam, &mut prng, PlonkVersion::V3);
+        let Some((inst, _)) = proved.instance else { return };
+        let rep = sat::check(&compiled.layout, &inst);
+        let desc = json!({"kind": "symmetric-violations", "domain": n, "rows": rows, "violated_rows": tamper.iter().map(|(r, _)| *r).collect::<Vec<_>>(),
+            "srs_degree": deg, "prove": match &proved.result { Ok(_) => "Ok".to_string(), Err(f) => f.text() }});
+        ev.case(&desc, true);
+        ev.bucket("symmetric_cases");
+        if rep.satisfied() {
+            ev.inconclusive("symmetric violation came out satisfied");
+            return;
+        }
+        ev.bucket("rsat.unsatisfied");
+        match &proved.result {
+            Err(Fail::Err(Error::CircuitUnsatisfied)) => ev.bucket("unsat_reported"),
+            Ok((proof, pis)) => {
+                let verdict = common::verify(&compiled.verifier, proof, pis, PlonkVersion::V3);
+                ev.violation(&format!("C05:proved-unsatisfied-instance:symmetric-residues:verifier={}", if verdict.is_ok() { "ACCEPTS" } else { "rejects" }), json!({"case": desc}));
+            }
+            Err(Fail::Panic(p)) => ev.violation(&format!("C05:prove-panicked:{}", panic_site(p)), json!({"case": desc})),
+            Err(f) => ev.violation(&format!("C05:wrong-error-for-unsatisfied:{}", short(f)), json!({"case": desc})),
+        }
+    });
+
     ev.floor("satisfied instances", ev.bucket_get("rsat.satisfied"), tier.pick(60, 600));
     ev.floor("unsatisfied instances", ev.bucket_get("rsat.unsatisfied"), tier.pick(100, 1500));
     ev.floor("proved and verified", ev.bucket_get("proved_and_verified"), tier.pick(60, 600));
     ev.floor("components seen violated", ev.set_len("violated") as u64, 14);
     ev.floor("copy-only violations", if ev.sets_contains("violated_alone", "copy") { 1 } else { 0 }, 1);
     ev.floor("last-row families", ev.set_len("last_row_family") as u64, 4);
+    ev.floor("symmetric multi-row violations", ev.bucket_get("symmetric_cases"), tier.pick(20, 200));
     ev.finish()
 }
